@@ -61,6 +61,9 @@ byteswap_body_helper (DBusTypeReader       *reader,
         case DBUS_TYPE_BOOLEAN:
         case DBUS_TYPE_INT32:
         case DBUS_TYPE_UINT32:
+        case DBUS_TYPE_UNIX_FD:
+          /* a UNIX_FD is marshalled as a 32-bit index into the array of
+           * attached file descriptors, and is swapped like any UINT32 */
           {
             p = _DBUS_ALIGN_ADDRESS (p, 4);
             *((dbus_uint32_t*)p) = DBUS_UINT32_SWAP_LE_BE (*((dbus_uint32_t*)p));
@@ -186,11 +189,6 @@ byteswap_body_helper (DBusTypeReader       *reader,
             
             byteswap_body_helper (&sub, TRUE, old_byte_order, new_byte_order, p, &p);
           }
-          break;
-
-        case DBUS_TYPE_UNIX_FD:
-          /* fds can only be passed on a local machine, so byte order must always match */
-          _dbus_assert_not_reached("attempted to byteswap unix fds which makes no sense");
           break;
 
         default:
